@@ -140,7 +140,7 @@ theorem not_isNil_of_container {n : Node} (h : (den n).isContainer = true) : isN
 /-- an existing object member that is a container: descend -/
 theorem ensRef_doc_some {o : Opts} {e : Bool} {v : Value} {cr : Bool} {self : Node} {keys : List Bytes}
     {obj : NMembers} {part nxt : Bytes} {rest : List Bytes} {n : Node}
-    (hinv : Inv e (.doc keys obj)) (hkey : decodeToken part ≠ [])
+    (hinv : Inv e (.doc keys obj))
     (hl : lookupN (decodeToken part) obj = some n)
     (ih : ∀ child, Inv e child → isCon child = true → EnsRef o e v false .nil child (nxt :: rest)) :
     EnsRef o e v cr self (.doc keys obj) (part :: nxt :: rest) := by
@@ -150,7 +150,7 @@ theorem ensRef_doc_some {o : Opts} {e : Bool} {v : Value} {cr : Bool} {self : No
   · rw [if_pos hcont] at hic
     obtain ⟨child, hinto, hchild, hcc, hden⟩ := hic
     have hg : conGet o self (.doc keys obj) (decodeToken part) = .ok n := by
-      rw [conGet_doc _ _ _ _ _ hkey, hl]
+      rw [conGet_doc _ _ _ _ _, hl]
     have ht := target_some hg (not_isNil_of_container hcont)
     apply ensRef_step (child0 := child) (fun c => .doc keys (setN (decodeToken part) c obj))
       (fun c' => .obj (Value.set (decodeToken part) c' (denM obj)))
@@ -160,10 +160,10 @@ theorem ensRef_doc_some {o : Opts} {e : Bool} {v : Value} {cr : Bool} {self : No
       simp only [Option.map_some, hcont, if_true]
     · intro c s hens hc hcc'
       rw [ensure_cons2, ht]
-      simp only [enter, hkey, false_and, if_false, hinto, hens, putRes, putChild]
+      simp only [enter, hinto, hens, putRes, putChild]
     · intro er hens
       rw [ensure_cons2, ht]
-      simp only [enter, hkey, false_and, if_false, hinto, hens, putRes]
+      simp only [enter, hinto, hens, putRes]
     · intro c hc hcc'
       obtain ⟨h1, h2⟩ := Inv_putChild_doc hinv hl hc
       refine ⟨h1, rfl, ?_⟩
@@ -186,7 +186,7 @@ theorem pad_doc (part : Bytes) (keys : List Bytes) (obj : NMembers) :
 /-- an absent object member: create it -/
 theorem ensRef_doc_none {o : Opts} {e : Bool} {v : Value} {cr : Bool} {self : Node} {keys : List Bytes}
     {obj : NMembers} {part nxt : Bytes} {rest : List Bytes}
-    (hinv : Inv e (.doc keys obj)) (hkey : decodeToken part ≠ []) (hq : QK e (decodeToken part) = true)
+    (hinv : Inv e (.doc keys obj)) (hq : QK e (decodeToken part) = true)
     (hl : lookupN (decodeToken part) obj = none)
     (ih : ∀ child, Inv e child → isCon child = true → EnsRef o e v false .nil child (nxt :: rest)) :
     EnsRef o e v cr self (.doc keys obj) (part :: nxt :: rest) := by
@@ -205,7 +205,7 @@ theorem ensRef_doc_none {o : Opts} {e : Bool} {v : Value} {cr : Bool} {self : No
   | ok fresh =>
     obtain ⟨hneg, hfd, hfi, hfc⟩ := freshFor_spec (e := e) hf
     have hg : conGet o self (.doc keys obj) (decodeToken part) = .err .missing := by
-      rw [conGet_doc _ _ _ _ _ hkey, hl]
+      rw [conGet_doc _ _ _ _ _, hl]
     have ht := target_none_err hg
     apply ensRef_step (child0 := freshNode nxt) (fun c => docSet keys obj (decodeToken part) c)
       (fun c' => .obj (Value.set (decodeToken part) c' (denM obj)))
@@ -237,7 +237,7 @@ theorem listInsert_append' {α} (xs : List α) (a : α) (k : Nat) (hk : xs.lengt
 /-- an existing array element that is a container: descend -/
 theorem ensRef_ary_some {o : Opts} {e : Bool} {v : Value} {cr : Bool} {self : Node} {ns : List Node}
     {part nxt : Bytes} {rest : List Bytes} {n : Node} {i : Int}
-    (hinv : Inv e (.ary ns)) (hkey : decodeToken part ≠ [])
+    (hinv : Inv e (.ary ns))
     (hc : Spec.classify (decodeToken part) = .int i) (h0 : ¬ i < 0)
     (hmax : ¬ i.toNat > Spec.ensureMaxIndex) (hx : ns[i.toNat]? = some n)
     (ih : ∀ child, Inv e child → isCon child = true → EnsRef o e v false .nil child (nxt :: rest)) :
@@ -263,7 +263,7 @@ theorem ensRef_ary_some {o : Opts} {e : Bool} {v : Value} {cr : Bool} {self : No
   · rw [if_pos hcont] at hic
     obtain ⟨child, hinto, hchild, hcc, hden⟩ := hic
     have hg : conGet o self (.ary ns) (decodeToken part) = .ok n := by
-      simp [conGet, hkey, ha, h0, hx]
+      simp [conGet, ha, h0, hx]
     have ht := target_some hg (not_isNil_of_container hcont)
     have hput : ∀ c, putChild o (.ary ns) (decodeToken part) c = .ary (listSet i.toNat c ns) := by
       intro c; simp [putChild, ha, h0]
@@ -272,10 +272,10 @@ theorem ensRef_ary_some {o : Opts} {e : Bool} {v : Value} {cr : Bool} {self : No
     · rw [hspec0, if_pos hcont, hden]
     · intro c s hens hc' hcc'
       rw [ensure_cons2, ht]
-      simp only [enter, hkey, false_and, if_false, hinto, hens, putRes, hput]
+      simp only [enter, hinto, hens, putRes, hput]
     · intro er hens
       rw [ensure_cons2, ht]
-      simp only [enter, hkey, false_and, if_false, hinto, hens, putRes]
+      simp only [enter, hinto, hens, putRes]
     · intro c hc' hcc'
       refine ⟨(Inv_ary e _).2 (InvL_listSet hc' hinvL), rfl, ?_⟩
       rw [den_ary, denL_listSet]
@@ -292,7 +292,7 @@ theorem ensRef_ary_some {o : Opts} {e : Bool} {v : Value} {cr : Bool} {self : No
 /-- an array element at or beyond the end: pad with nulls and create it -/
 theorem ensRef_ary_none {o : Opts} {e : Bool} {v : Value} {cr : Bool} {self : Node} {ns : List Node}
     {part nxt : Bytes} {rest : List Bytes} {i : Int}
-    (hinv : Inv e (.ary ns)) (hkey : decodeToken part ≠ [])
+    (hinv : Inv e (.ary ns))
     (hc : Spec.classify (decodeToken part) = .int i) (h0 : ¬ i < 0)
     (hmax : ¬ i.toNat > Spec.ensureMaxIndex) (hx : ns[i.toNat]? = none)
     (ih : ∀ child, Inv e child → isCon child = true → EnsRef o e v false .nil child (nxt :: rest)) :
@@ -323,7 +323,7 @@ theorem ensRef_ary_none {o : Opts} {e : Bool} {v : Value} {cr : Bool} {self : No
   | ok fresh =>
     obtain ⟨hneg, hfd, hfi, hfc⟩ := freshFor_spec (e := e) hf
     have hg : conGet o self (.ary ns) (decodeToken part) = .err .invalidIndex := by
-      simp [conGet, hkey, ha, h0, hx]
+      simp [conGet, ha, h0, hx]
     have ht := target_none_err hg
     have hpad : pad part (.ary ns) = .ary (ns ++ padNulls (i.toNat - ns.length)) := by
       simp only [pad, hap]
@@ -375,16 +375,16 @@ theorem ensure_single (o : Opts) (cr : Bool) (self con : Node) (part : Bytes) :
 container on which the plain `add` answers what `ensureAdd` answers on the original one -/
 theorem ensure_refines (o : Opts) (e : Bool) (v : Value) :
     ∀ (parts : List Bytes) (cr : Bool) (self con : Node), Inv e con → isCon con = true →
-      (∀ p ∈ parts, decodeToken p ≠ []) → (∀ p ∈ parts, QK e (decodeToken p) = true) →
+      (∀ p ∈ parts, QK e (decodeToken p) = true) →
       EnsRef o e v cr self con parts := by
   intro parts
   induction parts with
   | nil =>
-    intro cr self con _ _ _ _
+    intro cr self con _ _ _
     unfold EnsRef
     simp only [List.map_nil, ensureAdd_nil]
   | cons part tail ih =>
-    intro cr self con hinv hcon hne hq
+    intro cr self con hinv hcon hq
     cases tail with
     | nil =>
       have hcd := den_isContainer hinv hcon
@@ -402,17 +402,16 @@ theorem ensure_refines (o : Opts) (e : Bool) (v : Value) :
         simp only [Res.bind]
         exact ⟨con, hens, hinv, hcon, by rw [atParent_single _ _ _ _ hcd, hadd]⟩
     | cons nxt rest =>
-      have hkey := hne part (by simp)
       have hqk := hq part (by simp)
       have ih' : ∀ child, Inv e child → isCon child = true →
           EnsRef o e v false .nil child (nxt :: rest) :=
-        fun child a b => ih false .nil child a b (fun p hp => hne p (List.mem_cons_of_mem _ hp))
+        fun child a b => ih false .nil child a b
           (fun p hp => hq p (List.mem_cons_of_mem _ hp))
       cases con with
       | doc keys obj =>
         cases hl : lookupN (decodeToken part) obj with
-        | none => exact ensRef_doc_none hinv hkey hqk hl ih'
-        | some n => exact ensRef_doc_some hinv hkey hl ih'
+        | none => exact ensRef_doc_none hinv hqk hl ih'
+        | some n => exact ensRef_doc_some hinv hl ih'
       | ary ns =>
         have hun : ∀ {k : Spec.Tok}, Spec.classify (decodeToken part) = k → (∀ i, k ≠ .int i) →
             EnsRef o e v cr self (.ary ns) (part :: nxt :: rest) := by
@@ -441,8 +440,8 @@ theorem ensure_refines (o : Opts) (e : Bool) (v : Value) :
               rw [ensureAdd_arr_cons, hc]
               simp only [h0, if_false, hmax, if_true]
             · cases hx : ns[i.toNat]? with
-              | none => exact ensRef_ary_none hinv hkey hc h0 hmax hx ih'
-              | some n => exact ensRef_ary_some hinv hkey hc h0 hmax hx ih'
+              | none => exact ensRef_ary_none hinv hc h0 hmax hx ih'
+              | some n => exact ensRef_ary_some hinv hc h0 hmax hx ih'
         | noncanon => exact hun hc (fun i => by simp)
         | dash => exact hun hc (fun i => by simp)
         | name => exact hun hc (fun i => by simp)
